@@ -217,6 +217,37 @@ def _run(env):
         o = outcome(lambda: bool(pub.verify(pgpy.PGPMessage.from_blob(mblob))))
         ctx.case('carrier', ('msg-mut', pos, j))
         if not falsy(o): ctx.fail('carrier', 'message with altered literal data verifies', {'op': 'carrier', 'msg': mblob.hex()})
+    # text literals: the signature covers the literal's OCTETS; another encoding of "the same text", another undecodable octet,
+    # a byte-order mark added or removed, are all different documents
+    alg, ipub, ipriv = env.indep(k)
+    keyid = bytes.fromhex(str(k.fingerprint.keyid)); fpr = bytes.fromhex(str(k.fingerprint))
+    import re as _re
+    nmsg = 0
+    for fmt in 'tub':
+        for body, others in [
+            (b'caf\xe9 \xa3\n', [b'caf\xc3\xa9 \xc2\xa3\n', b'caf\xe8 \xa3\n', b'caf\xe9 \xa5\n', b'\xef\xbb\xbfcaf\xe9 \xa3\n', b'caf\xef\xbf\xbd \xef\xbf\xbd\n', b'caf? ?\n']),
+            (b'caf\xc3\xa9\n', [b'caf\xe9\n', b'cafe\xcc\x81\n', b'\xef\xbb\xbfcaf\xc3\xa9\n', b'caf\xc3\xa9\n\n', b'caf\xc3\xa9']),
+            (b'\xef\xbb\xbfbom first\n', [b'bom first\n', b'\xff\xfebom first\n']),
+            (b'a\rb\n', [b'a\nb\n', b'a\r\nb\n', b'a\rb\r']),
+        ]:
+            if fmt == 'u' and outcome(lambda: body.decode('utf-8'))[0] != 'ok':
+                continue
+            for st in (0x00, 0x01):
+                nmsg += 1
+                asm = S.signed_message_maker(d, alg, ipriv, keyid, fpr, fmt, body, st, 8, 7000 + nmsg)
+                o = outcome(lambda: bool(pub.verify(pgpy.PGPMessage.from_blob(asm()))))
+                ctx.case('carrier', ('lit-ok', fmt, body, st))
+                if o != ('ok', True):
+                    ctx.fail('carrier', 'independently signed message does not verify (baseline of the literal-octets mutations)', {'op': 'carrier', 'msg': asm().hex(), 'impl': repr(o)[:200]}); continue
+                cn = (lambda x: _re.sub(br'\r?\n', b'\r\n', x)) if st == 0x01 else (lambda x: x)
+                for ob in others:
+                    if cn(ob) == cn(body):
+                        continue       # same canonical text: a type 0x01 signature rightly covers both
+                    for f2 in ([fmt] if ctx.quick else 'tub'):
+                        mblob = asm(ob, f2)
+                        o = outcome(lambda: bool(pub.verify(pgpy.PGPMessage.from_blob(mblob))))
+                        ctx.case('carrier', ('lit-mut', fmt, f2, body, ob, st))
+                        if not falsy(o): ctx.fail('carrier', 'signed message verifies although its literal holds other octets (%r for %r)' % (ob[:16], body[:16]), {'op': 'carrier', 'msg': mblob.hex()})
     # certification inside a key: alter the user id octets in the exported key
     kb = bytes(pub)
     kp = S.split_packets(kb)
@@ -246,6 +277,9 @@ def replay(ctx, case):
                     if label == case['label']:
                         mut = bytearray(bytes.fromhex(case['sig'])); mut[case['pos']] = case['val']
                         return not falsy(verify_blob(env, vpub, sobj, mut))
+            if case.get('op') == 'carrier' and 'msg' in case and 'impl' not in case:
+                pub = env.key('ed25519').pubkey
+                return not falsy(outcome(lambda: bool(pub.verify(env.pgpy.PGPMessage.from_blob(bytes.fromhex(case['msg']))))))
             return True
     finally:
         env.d.close()
